@@ -177,13 +177,19 @@ impl Property for C10 {
     fn run(&self, run_seed: u64, tier: Tier, acc: &mut Acc) -> Option<(Violation, Value)> {
         let mut rng = Rng::stream(run_seed, "workload");
         let mut crng = Rng::stream(run_seed, "config");
-        // Both tiers use the same size bounds: a PDR run without generalisation blocks states one
-        // at a time, so its length grows with 2^(state bits) x depth, and the livelock sentinel
-        // (a violation of C10) must stay far above every legitimate run. Measured on the quick
-        // tier: at most 2,000 solver queries / 240,000 transport events per run, against a
-        // budget of 1.2 million events (6 million in the thorough tier, which explores more seeds).
+        // Both tiers use the same size bounds. A PDR run that cannot generalise blocks states one
+        // at a time, so its length grows with 2^(state bits) x depth, with a heavy tail over
+        // seeds (measured over 300,000 executions at 7 bits: 99.9 % below 100,000 transport
+        // events, maximum 430,000; one of 1,000,000 reached 1,500,000 events and 23 minutes). The
+        // livelock sentinel (a violation of C10) must stay far above every legitimate run, so
+        // systems have at most 6 state bits when both configurations of the run use unsat-core
+        // generalisation and at most 5 otherwise; the budget is 1.2 million events (6 million in
+        // the thorough tier, which explores more seeds, not larger systems).
         let _ = tier;
-        let (msb, mib) = (7, 3);
+        let variants: Vec<(usize, bool, bool)> =
+            (0..2).map(|_| (crng.usize_below(4), crng.bool(), crng.chance(1, 3))).collect();
+        let all_generalise = variants.iter().all(|(profile, _, disable_cores)| !disable_cores && *profile != 1);
+        let (msb, mib) = (if all_generalise { 6 } else { 5 }, 3);
         let harder = crng.chance(3, 4);
         let max_depth = 10;
         let mut tries = 0;
@@ -199,14 +205,13 @@ impl Property for C10 {
         };
         // the same system under two different answer policies / generalisation modes
         for variant in 0..2u64 {
+            let (profile, simplify, disable_cores) = variants[variant as usize];
             let scn = McScenario {
                 sys: sys.clone(),
                 cfg: McCfg {
-                    profile: crng.usize_below(4),
-                    simplify: crng.bool(),
-                    engine: Engine::Pdr {
-                        disable_cores: crng.chance(1, 3),
-                    },
+                    profile,
+                    simplify,
+                    engine: Engine::Pdr { disable_cores },
                 },
                 sim_seed: crate::rng::mix(&[run_seed, 10, variant]),
                 canonical_policy: false,
